@@ -47,7 +47,7 @@ class Monitor(object):
         self.hub.violate("C18", clause, detail)
 
     def on_init(self, Q):
-        self.first_visit[Q.statetracker.hash_state()] = 0.0
+        self.first_visit[Q.statetracker.hash_state()] = 0
 
     def on_pre_event(self, node, et):
         if self.dead:
@@ -56,6 +56,10 @@ class Monitor(object):
 
     def on_boundary(self, Q):
         now = Q.current_time
+        if self.dead:
+            # (exact mode has no pre-event seam: a further boundary after a deadlocked one says the same)
+            self.violate("continued_after_deadlock", {"deadlocked_nodes": sorted(self.dead), "clock": now, "event": "next boundary"})
+            self.dead = False
         self.last_t = now
         st = getattr(self.hub, "last_hash", None)
         truths = self.shadow.truths(Q)
@@ -180,6 +184,10 @@ def focused(tier):
         mk("cycle2 c=(3,1) caps=(0,1) p=%s" % p2, [node(c=3, cap=0), node(c=1, cap=1)],
            {"A": klass([[0.25, 0.5], None], [[1.0, 2.0], [2.0, 1.0]], route=matrix([[0.0, 1.0], [p2, 0.0]]))})
         out[-1]["max_events"] = E + 8
+    # exact arithmetic: the same entry point, Decimal dates
+    for c, caps in (((1, 1), (0, 0)), ((2, 1), (1, 0))):
+        mk("cycle2 c=%s caps=%s exact=12" % (c, caps), [node(c=c[0], cap=caps[0]), node(c=c[1], cap=caps[1])],
+           {"A": klass([ARR, None], [[1.0, 2.0], [1.0, 0.5]], route=matrix([[0.0, 1.0], [1.0, 0.0]]))}, exact=12)
     # (beyond the statement's 'finite integer servers': a non-pre-emptive schedule with an overtime server in the cycle)
     mk("cycle2 with schedule [1,1] at node 1", [node(c={"sched": {"numbers": [1, 1], "ends": [2.0, 4.0], "preempt": False}}, cap=0), node(c=1, cap=0)],
        {"A": klass([ARR, None], [[3.0, 1.0], [1.0, 2.0]], route=matrix([[0.0, 1.0], [1.0, 0.0]]))})
